@@ -1,9 +1,10 @@
 #!/bin/sh
 # tools/run_seeded.sh [PAR=4] — regression of the checks themselves: every stored seeded change (seeded/<ID>-<name>/patch.diff)
+# (except those marked superseded: they stopped being defects when a later fix: commit went in)
 # is applied to a scratch worktree and the check of its property must report a violation (exit 1).  One line per change.
 cd /verif
 par=${PAR:-4}
-ls -d seeded/*/ | sed 's#/$##' | xargs -P "$par" -I{} sh -c '
+ls -d seeded/*/ | sed 's#/$##' | while read d; do grep -q '"status": "superseded"' "$d/meta.json" || echo "$d"; done | xargs -P "$par" -I{} sh -c '
   d={}; id=$(basename "$d" | cut -d- -f1)
   r=$(tools/try_patch.sh "$d/patch.diff" "$id" 2>&1 | grep "^RESULT" | head -1)
   case "$r" in *"rc=1 "*) echo "CAUGHT  $d $r";; *) echo "MISSED  $d $r";; esac'
